@@ -10,8 +10,8 @@ import lockstep
 from core import Multi, Obj, pyval, show, show_outcome
 
 PID = "C19"
-GEN = ["InputCheck", "ConfigInter", "ConfigFile", "ConfigTop", "BaseExec"]
-CONE = ["Base/Dec.v", "Base/PyLib.v", "Base/Tac.v", "Proofs/DictFacts.v", "Proofs/C19Proofs.v", "Proofs/Refute.v"]
+GEN = ["InputCheck", "ConfigInter", "ConfigFile", "ConfigTop", "BaseExec", "SharedRes"]
+CONE = ["Base/Dec.v", "Base/PyLib.v", "Base/Tac.v", "Proofs/DictFacts.v", "Proofs/C19Proofs.v", "Proofs/C10Proofs.v", "Proofs/Refute.v"]
 IMPORTS = ["Base.Dec", "Base.PyLib", "Base.Show", "Gen.InputCheck", "Gen.ConfigInter", "Gen.ConfigFile", "Gen.ConfigTop", "Gen.BaseExec"]
 BACKENDS = ["local", "local", "local", "slurm_allocation", "flux_allocation", "slurm_submission", "flux_submission", "bogus"]
 PARAMS = ["max_workers", "backend", "cache_directory", "max_cores", "resource_dict", "flux_executor", "flux_executor_pmi_mode",
